@@ -221,7 +221,7 @@ func init() {
 				s.Orders = OrderSpec{Chars: "sorted", Words: "reverse", Visit: "sorted"}
 				return s
 			}
-			s.WL = genWLCfg(r, wlOpt{list: listOpt{min: 1, max: 10, twins: 0.2, precap: 0.15, caseless: 0.15, dups: 0.15, emptyWord: 0.06}, maxLen: 5, allowFancy: true, taint: r.Chance(0.2)})
+			s.WL = genWLCfg(r, wlOpt{list: listOpt{min: 1, max: 10, twins: 0.2, precap: 0.15, caseless: 0.15, dups: 0.15, emptyWord: 0.06, raw: 0.06}, maxLen: 5, allowFancy: true, taint: r.Chance(0.2)})
 			if r.Chance(0.15) {
 				s.WL.Cap = pick(r, []string{"", "ALL", "weird", "First"})
 			}
